@@ -13,8 +13,8 @@ DTN = {v: k for k, v in DT.items()}
 INT_OF = {torch.float32: torch.int32, torch.float16: torch.int16, torch.bfloat16: torch.int16}
 U = {torch.float32: 2.0**-24, torch.float16: 2.0**-11, torch.bfloat16: 2.0**-8, torch.float64: 2.0**-53}
 ETA = {torch.float32: 2.0**-149, torch.float16: 2.0**-24, torch.bfloat16: 2.0**-133, torch.float64: 0.0}
-MINNORMAL = {torch.float32: 2.0**-126, torch.float16: 2.0**-14, torch.bfloat16: 2.0**-126}
-FMAX = {d: torch.finfo(d).max for d in (torch.float32, torch.float16, torch.bfloat16)}
+MINNORMAL = {torch.float32: 2.0**-126, torch.float16: 2.0**-14, torch.bfloat16: 2.0**-126, torch.float64: 2.0**-1022}
+FMAX = {d: torch.finfo(d).max for d in (torch.float32, torch.float16, torch.bfloat16, torch.float64)}
 
 dtypes = st.sampled_from(["fp32", "fp16", "bf16"])
 
